@@ -4,7 +4,7 @@ PATCH=$1; shift
 cd /repo || exit 9
 if [ -n "$(git status --porcelain --untracked-files=no)" ]; then echo "repo dirty, refusing"; exit 9; fi
 if ! git apply "$PATCH" 2>/dev/null; then
-  if ! git apply --3way "$PATCH" 2>/dev/null; then echo "PATCH-DOES-NOT-APPLY $PATCH"; git checkout -q -- .; exit 8; fi
+  if ! git apply --3way "$PATCH" 2>/dev/null; then echo "PATCH-DOES-NOT-APPLY $PATCH"; git reset -q --hard HEAD; exit 8; fi
   git reset -q
 fi
 cd /verif
